@@ -28,7 +28,16 @@
 //!
 //! Deviations from DESIGN.md: the decisive witness is the tap in the same run (exact, independent of
 //! determinism and of which consumers terminate early); the isolated re-execution is the cross-check.
-//! Spill metrics (`spilled_rows` vs decoded spill files) are NOT checked (optional part, not built).
+//! Memory-limited variants: about a third of the cases run on a `RuntimeEnv` with a Greedy / FairSpill pool of 1 B … 64 KiB
+//! (disk manager on the OS temp dir, `sort_spill_reservation_bytes = 64`), so RepartitionExec (and, when they fit, sorts)
+//! really spill (labels `memory-limited`, `spilled`, `spilled@Op` from the node metrics); plans that end in
+//! ResourcesExhausted are discards. `output_rows` is judged against the taps as everywhere; additionally
+//! `spill_count > 0 ⇒ spilled_rows > 0`, and a RepartitionExec's `spilled_rows` ≤ the rows that flowed into it. Spill files
+//! are not decoded. Seeded defect /verif/seeded/C53-a (rows read back from the spill pool are not counted):
+//! `tools/mutrun seeded/C53-a/patch.diff -- ./check C53 quick` → VIOLATION ("RepartitionExec … reports output_rows = 0 but emitted 1 rows").
+//! An operator whose tap saw MORE streams opened than the operator has output partitions was executed more than once (the
+//! memory-limited NestedLoopJoinExec fallback re-executes its inputs on re-instantiated copies, like a recursive term):
+//! the metrics of the planned instance then cover one pass only — exempt, label `re-executed@Op`.
 //! Known findings: none open (`piecewise-merge-join-classic-output-rows` is FIXED in /repo; its case is a plain regression). Observation outside the statement
 //! (observations/): with enable_piecewise_merge_join the physical planner reaches `unreachable!()` for a join ON comparison
 //! one side of which references no column — planner panics are discards here (label `planner-panic`).
@@ -202,6 +211,8 @@ pub struct Observed {
     pub spilled_rows: usize,
     /// rows that flowed into the operator: the tap counts of its children
     pub input_rows: usize,
+    /// declared number of output partitions
+    pub partitions: usize,
 }
 
 pub struct Run {
@@ -239,6 +250,7 @@ pub fn run_case(case: &WalkCase) -> Result<Run, WalkFail> {
                     errors: t.counters.errors.load(Ordering::SeqCst),
                     under_recursive: t.under_recursive,
                     isolated_rows: None,
+                    partitions: t.op.properties().output_partitioning().partition_count(),
                     spill_count: ms.as_ref().and_then(|m| m.spill_count()).unwrap_or(0),
                     spilled_rows: ms.as_ref().and_then(|m| m.spilled_rows()).unwrap_or(0),
                     input_rows: {
@@ -283,6 +295,10 @@ impl Property for C53 {
         (walk::case_strategy(tier, Purpose::Metrics, 3, 2), limit)
             .prop_map(|(mut c, l)| {
                 c.mem_limit = l;
+                if l.is_some() {
+                    // let sorts spill instead of failing on their (10 MiB by default) merge reservation
+                    c.variant.options.push(("datafusion.execution.sort_spill_reservation_bytes".to_string(), "64".to_string()));
+                }
                 c
             })
             .boxed()
@@ -361,6 +377,12 @@ fn judge(case: &WalkCase) -> Judged {
             labels.push(format!("no-output-rows-metric@{}", o.name));
             continue;
         };
+        if o.opened > o.partitions {
+            // executed more than once: the consumer re-instantiates the subtree per pass (NLJ memory-limited fallback), the
+            // shared tap counts every pass, the planned instance's metrics only its own
+            labels.push(format!("re-executed@{}", o.name));
+            continue;
+        }
         let full = o.opened > 0 && o.opened == o.finished && o.errors == 0;
         if !full {
             labels.push(if o.opened == 0 { format!("never-executed@{}", o.name) } else { format!("not-consumed-in-full@{}", o.name) });
